@@ -84,6 +84,57 @@ func TestEnumMVTShort(t *testing.T) {
 	stats.Subspace("every 0-, 1- and 2-byte tile x {mvt.Unmarshal, mvt.UnmarshalGzipped}", e.size, true)
 }
 
+// TestEnumMVTCommands: every sequence of <= 6 geometry commands over a small alphabet of command
+// tokens (header + its parameter list), as the geometry of a POLYGON and of a LINESTRING feature
+// (<= 4 commands also as POINT and UNKNOWN), in a structurally valid tile; every 8th tile is also
+// decoded in its gzipped form. One-point and zero-point rings therefore occur in every position
+// (e.g. moveTo x1, lineTo x0, closePath, moveTo x1, lineTo x0, lineTo x0).
+func TestEnumMVTCommands(t *testing.T) {
+	assumptions()
+	defer inFlightDone()
+	e := &enumRun{t: t, name: "TestEnumMVTCommands", family: "mvt", measureEach: 1}
+	type tok struct {
+		name string
+		hdr  uint32
+		pts  int
+	}
+	toks := []tok{{"M1", 1<<3 | 1, 1}, {"L0", 0<<3 | 2, 0}, {"L2", 2<<3 | 2, 2}, {"C", 1<<3 | 7, 0}, {"U", 1<<3 | 0, 0}}
+	if stats.Thorough() {
+		toks = append(toks, tok{"M0", 0<<3 | 1, 0}, tok{"M2", 2<<3 | 1, 2}, tok{"L1", 1<<3 | 2, 1})
+	}
+	var n int64
+	var rec func(g []uint32, step, left int)
+	rec = func(g []uint32, step, left int) {
+		used := 6 - left
+		for _, typ := range []uint32{3, 2, 1, 0} {
+			if typ < 2 && used > 4 {
+				continue
+			}
+			d := mvtTileOf(mvtFeature(typ, g))
+			e.do(d, "commands")
+			n++
+			if n%8 == 0 {
+				e.do(gz(d), "commands,gzip")
+			}
+		}
+		if left == 0 {
+			return
+		}
+		for _, tk := range toks {
+			ng := append(append([]uint32(nil), g...), tk.hdr)
+			st := step
+			for i := 0; i < tk.pts; i++ {
+				dx, dy := mvtDelta(st)
+				st++
+				ng = append(ng, dx, dy)
+			}
+			rec(ng, st, left-1)
+		}
+	}
+	rec(nil, 0, 6)
+	stats.Subspace(fmt.Sprintf("MVT geometry command streams: every sequence of <= 6 commands over %d command tokens (moveTo x0/1/2, lineTo x0/1/2, closePath, an unknown id; quick: 5 of them) as POLYGON and LINESTRING geometry, <= 4 commands also as POINT and UNKNOWN; every 8th tile also gzipped", len(toks)), e.size, true)
+}
+
 // ---------------------------------------------------------------- WKB headers
 
 var enumCounts = []uint32{0, 1, 2, 1<<28 - 1, 1 << 28, 1<<28 + 1, 1 << 31, 1<<32 - 1}
@@ -468,6 +519,16 @@ func witnesses() []witness {
 		{"mvt", unhex("1a0c120a18032206ffffffff0f00"), "polygon first command ClosePath with count 2^29-1"},
 		{"mvt", unhex("1a0f120d18022209 0902 02 faffffff0f 00"), "line string second command LineTo with count 2^29-1"},
 		{"mvt", unhex("1a0c120a18012206f9ffffff0f00"), "point MoveTo with count 2^29-1"},
+		// seeded change C05i: a polygon whose second ring is one moveTo vertex + lineTo x0, not followed by closePath
+		{"mvt", mvtTileOf(mvtFeature(3, []uint32{9, 0, 0, 18, 20, 0, 0, 20, 15, 9, 2, 2, 2, 2})), "one-point second ring, then lineTo x0"},
+		{"mvt", mvtTileOf(mvtFeature(3, []uint32{9, 0, 0, 18, 20, 0, 0, 20, 15, 9, 2, 2, 2, 1})), "one-point second ring, then moveTo x0"},
+		{"mvt", mvtTileOf(mvtFeature(3, []uint32{9, 0, 0, 18, 20, 0, 0, 20, 15, 9, 2, 2, 2, 0})), "one-point second ring, then unknown command 0"},
+		{"mvt", mvtTileOf(mvtFeature(3, []uint32{9, 0, 0, 18, 20, 0, 0, 20, 15, 9, 2, 2, 2, 15})), "one-point second ring, closed"},
+		{"mvt", mvtTileOf(mvtFeature(3, []uint32{9, 0, 0, 2, 15, 9, 2, 2, 2, 2, 9, 2, 2, 2})), "three one-point rings"},
+		{"mvt", mvtTileOf(mvtFeature(3, []uint32{15, 9, 0, 0, 15, 15, 1, 2, 9, 2, 2, 10, 2, 2})), "closePath first, twice, moveTo x0, lineTo x0, unclosed two-point ring"},
+		{"mvt", gz(mvtTileOf(mvtFeature(3, []uint32{9, 0, 0, 18, 20, 0, 0, 20, 15, 9, 2, 2, 2, 2}))), "one-point second ring, gzipped"},
+		{"mvt", mvtTileOf(mvtFeature(2, []uint32{9, 0, 0, 2, 9, 2, 2, 2})), "line strings of one point"},
+		{"mvt", mvtTileOf(mvtFeature(0, []uint32{9, 0, 0, 18, 20, 0, 0, 20, 15})), "geometry type UNKNOWN"},
 		// fixed: geojson-null-collection-member, geojson-helper-null
 		{"geojson", []byte(`{"type":"GeometryCollection","geometries":[null]}`), "fixed:geojson-null-collection-member"},
 		{"geojson", []byte(`{"type":"GeometryCollection","geometries":[{"type":"GeometryCollection","geometries":[]}]}`), "nested empty collection"},
